@@ -161,6 +161,8 @@ def flat_py(t, x):
         return [x]
     if type(t).__name__ == "TConst":
         return []
+    if type(t).__name__ in ("TKw", "_TKw"):
+        return [v for k, tt in t.ts.items() for v in flat_py(tt, x[k])]
     if isinstance(t, TTuple):
         return [v for s, e in zip(t.ts, x) for v in flat_py(s, e)]
     if isinstance(t, TVec):
